@@ -334,11 +334,11 @@ func init() {
 			if tier == "thorough" {
 				o.MinSegments, o.MaxSegments, o.MaxWrites = 50, 400, 40000
 			}
-			return media.Gen(seed, idx, o), muxrun.Options{Light: true, RoundEvery: 4}
+			return media.Gen(seed, idx, o), muxrun.Options{Light: true, RoundEvery: 4, Delta: true}
 		},
-		rule:        "long histories (20-60 rotations quick, 50-400 thorough; playlists observed after every rotation and every 4th write) in every variant; non-trivial = >= 3 published segments; window slides counted",
+		rule:        "long histories (20-60 rotations quick, 50-400 thorough; playlists observed after every rotation and every 4th write, Low-Latency: each followed by its _HLS_skip=YES delta update) in every variant; non-trivial = >= 3 published segments; window slides counted",
 		assumptions: stdAssumptions(),
-		floors:      map[string]int{"C04.streams_slid_2x": 20, "C04.hints_checked": 200, "cases.variant3": 5},
+		floors:      map[string]int{"C04.streams_slid_2x": 20, "C04.hints_checked": 200, "cases.variant3": 5, "C04.delta_playlists_with_skipped_segments": 50},
 	})
 	regMux(&muxProp{
 		id: "C16", oracle: oracle.C16, quick: 400, thorough: 12000,
@@ -348,9 +348,9 @@ func init() {
 				o.MaxWrites = 2500
 				o.MaxSegments = 16
 			}
-			return media.Gen(seed, idx, o), muxrun.Options{NoFetch: false}
+			return media.Gen(seed, idx, o), muxrun.Options{NoFetch: false, AltQuery: true}
 		},
-		rule:        "track lists of every order / codec / name / language / default combination the generator produces (0-1 video, 0-4 audio), with parameter changes; index.m3u8 checked after every Write; non-trivial = >= 3 published segments",
+		rule:        "track lists of every order / codec / name / language / default combination the generator produces (0-1 video, 0-4 audio), with parameter changes; index.m3u8 checked after every Write, and asked a second time with another query string (a second viewer); non-trivial = >= 3 published segments",
 		assumptions: stdAssumptions(),
 		floors:      map[string]int{"C16.multivariant_checked": 5000, "C16.renditions_checked": 1000, "C16.bandwidth_exact_checked": 500, "feature.paramchange": 10},
 	})
